@@ -2656,8 +2656,9 @@ func compDefineX(sc *scope, n *node) error {
 		} else {
 			index = sc.add(t)
 			sc.sym[id] = &symbol{index: index, kind: varSym, typ: t}
-			if sc.global {
+			if sc.global && isGlobalDefine(n) {
 				// A package level variable, as if defined by a single value declaration in GTA.
+				// In a nested block of a global scope, the variable is local to the block.
 				sc.sym[id].global = true
 				sc.sym[id].node = n
 			}
